@@ -11,7 +11,7 @@ from .interp_expr import Frame
 PURE_DYN_METHODS_ = {'walk', 'get', 'keys', 'values', 'items', 'currencies', 'get_currency_units', 'is_empty', 'lower', 'upper',
                      'strip', 'quantize', 'weekday', 'isoweekday', 'isocalendar', 'date', 'get_positions', 'copy',
                      'split', 'rstrip', 'lstrip', 'startswith', 'endswith', 'format', 'group', 'total_seconds', 'strftime',
-                     'to_string', 'as_tuple', 'is_zero', 'build', 'join', 'reduce'}
+                     'to_string', 'as_tuple', 'is_zero', 'build', 'join', 'reduce', 'fullmatch', 'match', 'search', 'findall', 'sub'}
 
 
 class ClassInfo:
